@@ -28,3 +28,22 @@ def cg_replay(ck, maxn, maxv, maxk, switches):
     ck.classify(fails, lambda fl: {"alg": "cg", "key": fl["trace"]["key"], "model": fl["trace"]["m"], "code": fl["trace"]["c"]})
     ck.cat("cg_model_replays", len(recs))
     return recs
+
+
+def ckk_cfg(maxn, maxv, maxk, invariants):
+    return "CONSTANTS MaxN = %d MinV = 0 MaxV = %d MaxK = %d\nINIT Init\nNEXT Next\n%s" % (maxn, maxv, maxk, "".join("INVARIANT %s\n" % i for i in invariants))
+
+
+def ckk_mc(ck, maxn, maxv, maxk, invariants):
+    return ck.mc("CKK", ckk_cfg(maxn, maxv, maxk, invariants), "MC CKK n<=%d v<=%d k<=%d: %s" % (maxn, maxv, maxk, ", ".join(invariants)),
+                 coverage=True, required_actions=("Prune", "Leaf", "Branch", "Finish"))
+
+
+def ckk_replay(ck, maxn, maxv, maxk):
+    r = ck.mc("CKK", ckk_cfg(maxn, maxv, maxk, ["Emit"]), "GEN CKK terminal states (model's own partition and yields)")
+    recs = r.emitted
+    traces = [t for p in core.pmap(drive.replay_ckk, recs) for t in p]
+    fails = ck.judge("JDrift", traces, {"DRIFT"}, what="spec->code replay of CKK (%d stimuli)" % len(recs), count_events=lambda t: 1)
+    ck.classify(fails, lambda fl: {"alg": "ckk", "key": fl["trace"]["key"], "model": fl["trace"]["m"], "code": fl["trace"]["c"]})
+    ck.cat("ckk_model_replays", len(recs))
+    return recs
